@@ -24,6 +24,7 @@ type TargetResult struct {
 	Inputs        []*InputVar
 	Binding       map[string]int64
 	KnownID       string // non-empty: this is the carved-out known-finding variant
+	DeadCovers    []string // reachability guards that are not satisfiable (vacuous paths)
 	ex            *Exec
 }
 
@@ -233,6 +234,19 @@ func (v *Verifier) verifyOne(b *Block, bd map[string]int64, variant int) (tr *Ta
 	}
 	applyUses := func(st *State, recv Value, args []Value) {
 		for _, c := range uses {
+			if c.ID == b.Name && b.Kind == "lemma" {
+				// induction hypothesis: only for a smaller instance
+				if c.DecName == "" {
+					unsupported("lemma %s uses itself: needs a decreases clause and an unquantified instance", b.Name)
+				}
+				dfi := v.prog.FuncByKey[funcKey(b.Pkg, "", c.DecName)]
+				if dfi == nil {
+					unsupported("lemma %s uses itself but has no decreases clause", b.Name)
+				}
+				s2 := st.fork(st.pc)
+				g := ex.inline(dfi, nil, pk, nil, nil, args, s2, &ast.CallExpr{}).(*Term)
+				ex.assertNamed(s2, "induction."+c.Name, g, "the induction hypothesis is used on a smaller instance")
+			}
 			ex.suppress++
 			g := ex.inline(clauseFn2(v, b, c), nil, pk, nil, recv, args, st, &ast.CallExpr{}).(*Term)
 			ex.suppress--
@@ -370,6 +384,7 @@ func (v *Verifier) verifyOne(b *Block, bd map[string]int64, variant int) (tr *Ta
 		default:
 			res = []Value{x}
 		}
+		ex.cover(st, "function-exit")
 		if !st.pc.IsFalse() {
 			all := append(append([]Value(nil), args...), res...)
 			if len(b.Ghosts) > 0 {
@@ -408,6 +423,27 @@ func (tr *TargetResult) finish(v *Verifier, ex *Exec, nReqFacts int) {
 		tr.Cover = sr.Status
 	}
 	tr.Results = ex.Discharge(v.Timeout, v.Keep)
+	// reachability guards
+	type cres struct {
+		name string
+		dead bool
+	}
+	ch := make(chan cres, len(ex.covers))
+	for _, c := range ex.covers {
+		go func(c *Cover) {
+			asserts := append(append([]*Term(nil), ex.facts[:c.NFacts]...), c.PC)
+			script := ex.ts.SMTScriptLocked(&ex.smtMu, asserts, nil)
+			sr := Solve(script, v.Timeout, nil)
+			ch <- cres{c.Name, sr.Status == "unsat"}
+		}(c)
+	}
+	for range ex.covers {
+		r := <-ch
+		if r.dead {
+			tr.DeadCovers = append(tr.DeadCovers, r.name)
+		}
+	}
+	sort.Strings(tr.DeadCovers)
 	// canary: "false" must not be provable from the collected facts
 	all := append([]*Term(nil), ex.facts...)
 	if len(all) == 0 {
